@@ -86,6 +86,13 @@ class TCls(TV):
         self.ci = ci
 
 
+class TLam(TV):
+    """a lambda closure: evaluated in a copy of the defining environment when called"""
+
+    def __init__(self, node, fr):
+        self.node, self.fr = node, fr
+
+
 def labels(v):
     if v is None:
         return EMPTY
@@ -105,6 +112,14 @@ def labels(v):
         r = EMPTY
         for i in v.d.values():
             r |= labels(i)
+        return r
+    if isinstance(v, TLam):
+        # everything the closure reads from its defining scope
+        r = EMPTY
+        bound = {a.arg for a in v.node.args.args}
+        for n in ast.walk(v.node.body):
+            if isinstance(n, ast.Name) and n.id not in bound and n.id in v.fr.env:
+                r |= labels(v.fr.env[n.id])
         return r
     return EMPTY
 
@@ -501,7 +516,7 @@ class TaintInterp:
         if isinstance(e, ast.Starred):
             return self.ev(e.value, fr)
         if isinstance(e, ast.Lambda):
-            return T()
+            return TLam(e, fr)
         return T()
 
     def wrap(self, r):
@@ -583,6 +598,20 @@ class TaintInterp:
     def _call(self, f, args, kw, node, fr):
         if isinstance(f, TFn):
             return self.inline(f, args, kw, node)
+        if isinstance(f, TLam):
+            env = copy_env(f.fr.env)
+            for p_, v_ in zip([a.arg for a in f.node.args.args], args):
+                env[p_] = v_
+            for k_, v_ in kw.items():
+                env[k_] = v_
+            fr2 = Frame(f.fr.mod, env, f.fr.qual, f.fr.cls)
+            return self.ev(f.node.body, fr2)
+        if isinstance(f, (T, TC)) and not isinstance(f, TC):
+            # an unknown callable value: its result depends on the callee and on every argument
+            r = labels(f)
+            for a_ in list(args) + list(kw.values()):
+                r |= labels(a_)
+            return T(r)
         if isinstance(f, TCls):
             o = TObj({}, f.ci)
             init = self.prog.find_method(f.ci, "__init__")
@@ -633,6 +662,12 @@ class TaintInterp:
             n = f.name
             if n == "super":
                 return ("super", fr)
+            if n == "numpy.copyto" and len(node.args) >= 2 and isinstance(node.args[0], ast.Name):
+                # in-place: dst <- src where mask
+                extra = labels(args[1]) | labels(kw.get("where"))
+                cur = fr.env.get(node.args[0].id)
+                fr.env[node.args[0].id] = add_labels(cur if isinstance(cur, (T, TC)) else T(labels(cur)), extra)
+                return TC(None)
             if n == "isinstance" and len(args) == 2:
                 v = args[0]
                 tn = args[1].name if isinstance(args[1], TExt) else None
